@@ -32,6 +32,7 @@ def run(ctx):
     P = 'C19'
     r_alloc(ctx, P)
     r_quad(ctx, P)
+    r_rescan(ctx, P)
     ceilings(ctx, P)
     rec(ctx, P)
 
@@ -81,6 +82,72 @@ def r_quad(ctx, P):
     ctx.check(P + ':S19-4:reviewed-fresh', 'R-quad', 'every reviewed shifting site still exists', not stale, missing=stale or None)
 
 
+def _root_place(b, o, defs, depth=0):
+    """The local (and field path) an operand borrows from, looking through refs, copies, deref / as_slice / iter calls."""
+    while depth < 10 and 'l' in o:
+        pr = tuple(x for x in o['pr'] if x != '*')
+        if pr:
+            return (o['l'], pr)
+        d = defs.get(o['l'])
+        if d is None:
+            return (o['l'], ())
+        if d[1].get('k') == 'call':
+            if re.search(r'Deref::deref$|DerefMut::deref_mut$|AsRef::as_ref$|Vec::<.*>::as_slice$|::iter$|::iter_mut$', d[1]['f'].get('fn', '')) and d[1]['args']:
+                o = d[1]['args'][0]
+                depth += 1
+                continue
+            return (o['l'], ())
+        r = d[1]['r']
+        if r['k'] in ('ref', 'copyderef'):
+            o = r['p']
+            depth += 1
+            continue
+        if r['k'] == 'use' and 'l' in r['o'][0]:
+            o = r['o'][0]
+            depth += 1
+            continue
+        return (o['l'], ())
+    return None
+
+
+def r_rescan(ctx, P):
+    """`finishes in time linear in the input`: a loop that appends one element per input item to a container and, inside the same
+    cycle, walks that whole container (for / iter / any / all / find / contains) does work quadratic in the number of items.
+    Expected count on the tree: zero."""
+    import callgraph
+    n = 0
+    for p, r in sorted(ctx.f.bodies.items()):
+        if panics.skip_body(p, r):
+            continue
+        b = ctx.wrap(r)
+        pushes = b.calls(r'Vec::<T, A>::(push|extend_from_slice|insert)$|VecDeque::<T, A>::push_back$|BTreeMap::<.*>::insert$|HashMap::<.*>::insert$')
+        if not pushes:
+            ctx.functions.discard(p)
+            continue
+        its = b.calls(r'IntoIterator::into_iter$|\]>::(iter|contains|iter_mut|to_vec|concat)$|Vec::<T, A>::iter$|Clone::clone$')
+        edges = {i: set(j for j, _ in b.succ(i)) for i in range(len(b.blocks)) if not b.blocks[i]['c']}
+        comps = [set(c) for c in callgraph.sccs(edges) if len(c) > 1]
+        if not comps:
+            ctx.functions.discard(p)
+            continue
+        defs = single_defs(b)
+        bad = []
+        for i, t in pushes:
+            n += 1
+            bp = _root_place(b, t['args'][0], defs)
+            if bp is None:
+                continue
+            for c in comps:
+                if i not in c:
+                    continue
+                for j, tt in its:
+                    if j in c and tt['args'] and _root_place(b, tt['args'][0], defs) == bp:
+                        bad.append('%s is appended to at %s and walked at %s inside the same loop' % ('_%d%s' % (bp[0], ''.join(bp[1])), site(b, i), site(b, j)))
+        ctx.check('%s:S19-4:no-rescan-of-accumulator:%s' % (P, p), 'R-quad', 'no loop of %s walks the container it is appending to (work stays linear in the number of items)' % p.split('::')[-1],
+                  not bad, function=p, missing=sorted(set(bad)) or None)
+    ctx.floor(P + ':S19-4:rescan-floor', 'append sites inside functions with loops', n, 40)
+
+
 def r_alloc(ctx, P):
     f = ctx.f
     bodies = {p: ctx.wrap(r) for p, r in f.bodies.items() if not panics.skip_body(p, r)}
@@ -120,6 +187,7 @@ def r_alloc(ctx, P):
             ctx.functions.discard(p)
             continue
         defs = single_defs(b)
+        adefs = all_defs(b)
         cnt = collections.Counter()
         for i, t in sinks:
             a = size_arg(t)
@@ -135,7 +203,7 @@ def r_alloc(ctx, P):
             if not src or is_narrow_type(b, a):
                 ctx.ok(kk, 'R-alloc', 'allocation size in %s does not derive from a declared 32-bit length' % p.split('::')[-1], function=p, site=site(b, i))
                 continue
-            if has_origin(og, SANITISER):
+            if has_origin(og, SANITISER) and clamped_on_every_definition(b, a, adefs):
                 ctx.ok(kk, 'R-alloc', 'allocation size in %s derives from a declared length but is clamped by min()' % p.split('::')[-1], function=p, site=site(b, i), feature='min')
                 continue
             # dominating rejecting comparison of the tainted value with a constant
@@ -167,6 +235,67 @@ def r_alloc(ctx, P):
             if a is not None and has_origin(b.operand_origins(a), SANITISER):
                 good = True
         ctx.check('%s:S19-1:sanitiser:%s' % (P, path.split('::')[-1]), 'R-alloc', what, good, function=path)
+
+
+def all_defs(b):
+    """local -> [(block, statement or call terminator)] for every definition of a projection-free local."""
+    d = {}
+    for i, blk in enumerate(b.blocks):
+        if blk['c']:
+            continue
+        for s in blk['s']:
+            if not s['d']['pr']:
+                d.setdefault(s['d']['l'], []).append((i, s))
+        t = blk['t']
+        if t['k'] == 'call' and not t['d']['pr']:
+            d.setdefault(t['d']['l'], []).append((i, t))
+    return d
+
+
+def clamped_on_every_definition(b, o, defs, depth=0, seen=None):
+    """Is the value of operand `o` clamped by min() (or a constant / mask) on EVERY definition that reaches it?  The flow-insensitive
+    origin set only says that *some* definition went through min(); a local assigned in several match arms needs all of them."""
+    seen = seen if seen is not None else set()
+    if 'k' in o:
+        return True
+    if 'l' not in o or o['pr'] or depth > 8:
+        og = b.operand_origins(o)
+        return has_origin(og, SANITISER) or not has_origin(og, TAINT + '|^param:')
+    if o['l'] in seen:
+        return True
+    seen.add(o['l'])
+    ds = defs.get(o['l'])
+    if not ds:
+        return False if o['l'] <= b.r.get('nargs', 0) else True
+    for i, x in ds:
+        if x.get('k') == 'call':
+            fn = x['f'].get('fn', '')
+            if re.search(r'cmp::Ord::min$|cmp::min$', fn):
+                continue
+            og = set()
+            for a in x['args']:
+                og |= b.operand_origins(a)
+            if has_origin(og, TAINT + '|^param:') and not has_origin(og, SANITISER):
+                return False
+            if has_origin(og, TAINT + '|^param:') and has_origin(og, SANITISER):
+                # clamp somewhere upstream of this call: look through simple conversions only
+                if re.search(r'(TryFrom::try_from|TryInto::try_into|From::from|Into::into|Try::branch|Result::<.*>::(unwrap_or|unwrap|expect|map_err)|Option::<.*>::(unwrap_or|unwrap|expect))$', fn) and x['args']:
+                    if not clamped_on_every_definition(b, x['args'][0], defs, depth + 1, seen):
+                        return False
+            continue
+        r = x['r']
+        if r['k'] in ('use', 'cast'):
+            if not clamped_on_every_definition(b, r['o'][0], defs, depth + 1, seen):
+                return False
+        elif r['k'] == 'bin' and r['op'] in ('BitAnd', 'Rem') and any('k' in oo for oo in r['o']):
+            continue
+        elif r['k'] == 'bin':
+            if not all(clamped_on_every_definition(b, oo, defs, depth + 1, seen) for oo in r['o']):
+                return False
+        elif 'o' in r:
+            if not all(clamped_on_every_definition(b, oo, defs, depth + 1, seen) for oo in r['o']):
+                return False
+    return True
 
 
 def is_narrow_type(b, a):
